@@ -43,12 +43,14 @@ func (w *World) onObservation(inc *Inc, o *raft.Observation) {
 
 // ------------------------------------------------------------------ boot image (C10)
 
-func (o *Oracle) captureBootImage(n *Node) bootImage {
+func (o *Oracle) captureBootImage(n *Node) bootImage { return o.captureBootImageExcept(n, nil) }
+
+func (o *Oracle) captureBootImageExcept(n *Node, skip map[string]bool) bootImage {
 	d := n.disk
 	var im bootImage
 	im.term, im.hasTerm = d.kvInt["CurrentTerm"], true
 	im.lastLog = d.last
-	if s := d.newestSnap(); s != nil {
+	if s := d.newestSnapExcept(skip); s != nil {
 		im.snapIdx, im.snapTerm = s.Meta.Index, s.Meta.Term
 		im.cfg, im.cfgIdx = s.Meta.Configuration.Clone(), s.Meta.ConfigurationIndex
 	}
@@ -82,6 +84,13 @@ func (o *Oracle) onBooted(inc *Inc) {
 	r := inc.r
 	im := inc.imageAtBoot
 	n := inc.node
+	if len(inc.openFailed) > 0 {
+		// an injected read error made the newest snapshot(s) unusable: the statement asks for the
+		// newest *usable* one. Nothing was written to this server's stores since the image was
+		// taken (NewRaft only reads), so the expectation is recomputed from the same disk.
+		im = o.captureBootImageExcept(n, inc.openFailed)
+		w.stats.probe("boot_fell_back_to_older_snapshot")
+	}
 	if inc.n > 1 {
 		w.stats.probe("restart_completed")
 	}
